@@ -262,6 +262,7 @@ def make_world(seed, kind):
                     w.plant_sites(chrom, intr, strand)
                 w.genes.append(g)
                 p += 3000 + 2500
+        zoo_from = len(w.genes)
         for g in w.genes:
             for t in g.transcripts:
                 for _ in range(5):
@@ -270,6 +271,8 @@ def make_world(seed, kind):
             for t in g.hidden:
                 for _ in range(10 if t.kind == "alt-terminal-exon-inside-intron" else 6):
                     w.read_from_transcript(t, mode="full", jitter=0, polya=True, flag=rng.choice((0, 16)))
+        # the zoo loci that contain no exact positional tie (they bring their own error-free reads)
+        world2.add_zoo(w, ("ambiguous_only", "contested", "intronic", "apa", "same_coords"))
         return w, True
     w = world2.rich_world(seed, n_chroms=3, genes_per_chrom=3, reads_per_t=5, hidden_cov=5, multimappers=False, unmapped=1)
     return w, False
